@@ -71,7 +71,7 @@ def matrix_family(n, name):
     raise KeyError(name)
 
 
-FAMS = [(2, "all"), (3, "all"), (4, "all"), (4, "twistA"), (4, "twistB"), (5, "signedperm"), (5, "idplus2")]
+FAMS = [(2, "all"), (3, "all"), (4, "all"), (4, "twistA"), (4, "twistB"), (5, "signedperm"), (5, "idplus2"), (2, "all@2^-14"), (3, "all@2^-14"), (4, "twistB@2^-14")]
 LAYOUTS = ["single", (2,), (63,), (64,), (65,), (128,), (2, 40)]
 DTYPES = ["int64", "float64", "complex128"]
 
@@ -80,6 +80,8 @@ def enum_kernels(tier, seed):
     for n, fam in FAMS:
         for lay in LAYOUTS:
             for dt in DTYPES:
+                if "@" in fam and (dt != "float64" or lay in ("single", (2,), (128,), (2, 40))):
+                    continue  # the scaled families are float-only and visit both sides of the switch once
                 yield (n, fam, lay if isinstance(lay, str) else list(lay), dt)
 
 
@@ -89,6 +91,14 @@ _ORACLE = {}
 def _oracle(n, fam, dt):
     """Exact det / adjugate of the whole family, computed once per worker (vectorised integer cofactors)."""
     key = (n, fam, dt)
+    if key not in _ORACLE and "@" in fam:
+        # integer matrices times 2^-14: det, adjugate scale by exact powers of two (still exactly representable)
+        _ORACLE.clear()
+        A, dex, adjex = _oracle(n, fam.split("@")[0], "float64")
+        sc = 2.0**-14
+        res = (A * sc, dex * sc**n, adjex * sc ** (n - 1))
+        _ORACLE.clear()
+        _ORACLE[key] = res
     if key not in _ORACLE:
         _ORACLE.clear()  # keep one family in memory
         Ai = matrix_family(n, fam)
@@ -124,7 +134,7 @@ def case_kernels(ctx, cfg):
     from geometer.utils import adjugate, det, inv
 
     n, fam, lay, dt = cfg
-    A_all = matrix_family(n, fam)
+    A_all = matrix_family(n, fam.split("@")[0])
     single = lay == "single"
     lay_t = () if single else tuple(lay)
     bs = int(np.prod(lay_t)) if lay_t else 1
